@@ -356,7 +356,7 @@ def correspondence(ctx):
     if any(f["id"] == "D23q" for f in ctx.known()):
         ctx.finding("D23q", still, f"child sees Q1={l_env.get('Q1')!r} Q2={l_env.get('Q2')!r} B={l_env.get('B')!r}" if l_env else f"no child env ({l_exc})")
     run_e2e(ctx, rig, [W_INHERIT, W_QUOTE])
-    n_e2e = ctx.pick(220, 2500)
+    n_e2e = ctx.pick(220, 1200)
     run_e2e(ctx, rig, [gen_e2e(ctx.rng, 0.25) for _ in range(n_e2e)])
     n_p = ctx.pick(4000, 60000)
     run_parser(ctx, [gen_parser_text(ctx.rng) for _ in range(n_p)])
